@@ -571,6 +571,30 @@ func genModule(r *core.Rng, nfuncs int) []byte {
 	return m.Encode()
 }
 
+// familyModules: n modules of identical shape and entry size whose exports
+// return a module-specific constant (1000+i): if a cache entry of one is ever
+// served for another, the behaviour differs.
+func familyModules(n int) []modSpec {
+	var out []modSpec
+	for i := 0; i < n; i++ {
+		k := int32(1000 + i)
+		m := &wenc.Module{}
+		m.Mems = []wenc.Limits{{Min: 1}}
+		m.ExportFunc("id", m.AddFunc(nil, vt(i32), nil, code().I32Const(k).End().B))
+		m.ExportFunc("mix", m.AddFunc(vt(i32), vt(i32), nil, code().LocalGet(0).I32Const(k).Op(0x73).End().B))
+		prev := uint32(1) // "mix": (i32) -> i32
+		for f := 0; f < 24; f++ {
+			c := code().LocalGet(0).I32Const(k*7 + int32(f)).Op(0x6a).I32Const(k).Op(0x6c).Call(prev).LocalGet(0).Op(0x73)
+			prev = m.AddFunc(vt(i32), vt(i32), nil, c.End().B)
+		}
+		m.ExportFunc("chain", prev)
+		m.ExportFunc("store", m.AddFunc(nil, vt(i32), nil, code().I32Const(64).I32Const(k).Mem(0x36, 2, 0).I32Const(64).Mem(0x28, 2, 0).End().B))
+		exportMem(m, "memory")
+		out = append(out, modSpec{Name: fmt.Sprintf("family%02d", i), Wasm: m.Encode(), Kind: "family"})
+	}
+	return out
+}
+
 var spectestNames = []string{
 	"fac.0", "br_table.0", "left-to-right.0", "conversions.0", "i64.0", "f32_bitwise.0", "memory_grow.0",
 	"switch.0", "stack.0", "float_exprs.0", "unwind.0", "local_tee.0", "select.0",
@@ -593,6 +617,7 @@ func moduleSet(seed int64, nGen int) (out []modSpec, missing []string) {
 	for i := 0; i < nGen; i++ {
 		out = append(out, modSpec{Name: fmt.Sprintf("gen%02d", i), Wasm: genModule(r.Split(), 2+r.Intn(14)), Kind: "gen"})
 	}
+	out = append(out, familyModules(16)...)
 	for _, n := range spectestNames {
 		b, err := os.ReadFile(filepath.Join(repoDir(), "internal/integration_test/spectest/v1/testdata", n+".wasm"))
 		if err != nil {
